@@ -975,16 +975,16 @@ def case_hash(case):
     return int.from_bytes(hashlib.blake2b(case.text().encode(), digest_size=8).digest(), "little")
 
 
-def run_batch(res, prop, cases, batch_no, timeout=600):
+def run_batch(res, prop, cases, batch_no, timeout=600, one_per_job=False):
     """write `cases` round-robin into NJOBS script files, run the harness on each, return
     {case id: [events]}.  When a process dies in a case (sanitizer abort = a violation that vlib records),
     the cases after it are re-run in a fresh process so that one crash does not hide the rest."""
     import os
     import vlib
     wd = vlib.workdir(prop)
-    groups = [[] for _ in range(NJOBS)]
+    groups = [[] for _ in range(len(cases) if one_per_job else NJOBS)]
     for i, cs_ in enumerate(cases):
-        groups[i % NJOBS].append(cs_)
+        groups[i % len(groups)].append(cs_)
     groups = [g for g in groups if g]
     traces = {}
     rnd = 0
@@ -1040,6 +1040,46 @@ def run_batch(res, prop, cases, batch_no, timeout=600):
         groups = nxt
         rnd += 1
     return traces
+
+
+class Confirmer(object):
+    """Oracle violations whose key is not a listed known finding are re-executed alone in a fresh
+    process before they are reported (DESIGN 2.4: doubtful cases are re-run once).  Every case is a
+    pure function of its script, so a real violation reproduces; an artefact of machine load (a
+    loopback segment delivered after the harness decided the loop was idle) does not."""
+
+    def __init__(self, res, prop, judge):
+        import vlib
+        self.res, self.prop, self.judge = res, prop, judge
+        self.fnd = vlib.Findings()
+        self.seen = {}
+        self.unreproduced = 0
+
+    def report(self, batch_no, found):
+        """found: [(case, key, text)] of one batch"""
+        direct, suspects = [], {}
+        for cs_, key, text in found:
+            if self.seen.get(key, 0) >= 3:
+                continue
+            if self.fnd.match(self.prop, key) is not None:
+                direct.append((cs_, key, text))
+            else:
+                suspects.setdefault(cs_.id, (cs_, []))[1].append((key, text))
+        if suspects:
+            todo = [v[0] for v in list(suspects.values())[:64]]
+            traces = run_batch(self.res, self.prop, todo, 100000 + batch_no, one_per_job=True)
+            for cs_ in todo:
+                again = dict(self.judge(cs_.meta, traces.get(cs_.id, []), {}))
+                for key, text in suspects[cs_.id][1]:
+                    if key in again:
+                        direct.append((cs_, key, text))
+                    else:
+                        self.unreproduced += 1
+        for cs_, key, text in direct:
+            if self.seen.get(key, 0) < 3:
+                self.seen[key] = self.seen.get(key, 0) + 1
+                self.res.add_viol(key, text + " | case %d" % cs_.id,
+                                  dict(flavor="asan", harness="h_httpmsg", payload=dict(script=cs_.text(), meta=cs_.meta)))
 
 
 def replay_common(info, prop, judge):
